@@ -1,13 +1,13 @@
 SPECIFICATION Spec
 CONSTANTS
-  Devs <- DevBoth
+  Devs <- DevAll
   Ops <- OpsContent
   ByteStrings <- BytesThorough
   NumSeqs <- NumsQuick
   NewObjs <- MCNewObjs
   MaxDepth = 5
   Starts <- StartsContent
-  Allowed = {}
+  Allowed = {"content.sharedStream", "resources.nameCollision"}
   Emit = TRUE
   EmitMod = 2000
   EmitModV = 200
